@@ -133,7 +133,7 @@ PROPS = {
         "assumptions": [
             "T: the Mozilla profiles of the openssl crate accept the protocol versions stated in prelude/tacd_shims.rs (intermediate: from TLS 1.0, intermediate_v5 / modern: from 1.2, modern_v5: 1.3 only); OpenSSL encodes what the builder calls describe (extension text `critical,DER:..` as written); select_next_proto as documented; the TLS stack",
             "T: str::split semantics as stated in prelude/vmap.rs",
-            "T: clap::ArgMatches as a map from option names to values, the input sources (file / stdin) as uninterpreted lines (prelude/tacdmain_shims.rs); tacd main.rs::init and get_acme_value are verified: the served certificate is for the A-label form of the requested domain",
+            "T: clap::ArgMatches as a map from option names to values, the input sources as a file content function and the stream of lines still to come on the standard input (a line taken by a direct read or into a BufReader's buffer is gone for every other reader) (prelude/tacdmain_shims.rs); tacd main.rs::init, get_acme_value and read_line are verified: the served certificate is for the A-label form of the requested domain, the domain being the first and the extension the next line of stdin when both are read from there (tacd.8)",
             "X: the handshake as a client sees it; "
             "the digest text inside the extension value (computed by acmed, C05)",
         ],
